@@ -1,24 +1,300 @@
-import SSV.Model.TcpRelay
+import SSV.Proofs.TcpRelay
 /-
-C13 — property theorems (first batch; the full set follows).
+C13 — The TCP relay connects clients to the routed destination and mirrors half-closes (PARTIAL).
+
+The theorems are about `SSV.TcpRelay.handleConn`, which is the INTERPRETATION of the step program regenerated from
+service/tcp.go on every run (`SSV.Gen.C13`), and about the two copy loops regenerated from netio/stream.go.
+They hold for every environment `e : Env`: every request, router answer, Proceed/deadline outcome, wait-read outcome
+(kind and byte count: kernel timing enters here as a universally quantified input), dial result, pair of byte streams
+and every interleaving `e.sched` of the two copy loops (any list of labels; labels that are not enabled are no-ops).
+
+What is NOT covered (hence partial): that the kernel's TCP behaves like the model's streams (a loop delivers a prefix of
+its source in order), the protocol codecs behind HandleStream / DialStream / Proceed / Abort (C01, C07), the router's
+choice (C09). Those are sampled by the loopback engine corr_c13.
 -/
 namespace SSV.C13
 open SSV SSV.TcpRelay SSV.Gen.C13
 
-/-- A router failure is answered with Abort(code of the router error) and nothing else happens. -/
-theorem route_error_reply (e : Env) (r : Req) (c : Code) (hr : e.req = some r) (h : e.routeErr = some c) :
-    handleConn e = [.handshake, .abort c, .closeClient] := by
-  simp [handleConn, hr, finish, runSteps, handleConnProgram, execStep, h, abortIf, routeAbort, St.emit, St.ret]
-
-/-- a sample environment (used by the satisfiability examples) -/
+/-- a sample environment (used by the satisfiability examples): a SOCKS5-like server in front of a native client,
+the client's first 2 bytes arrive within the wait window -/
 def sampleEnv : Env :=
-  { serverNative := false, waitDisabled := false, bufSize := 1440, req := some ⟨"a:1", [], ""⟩, routeErr := none,
+  { serverNative := false, waitDisabled := false, bufSize := 8, req := some ⟨"a:1", [], "u"⟩, routeErr := none,
     clientNative := true, proceedOk := true, setDeadlineOk := true, clientStream := [1, 2, 3], waitKind := .data, waitN := 2,
-    clearDeadlineOk := true, dialErr := none, targetStream := [9], sched := [.chunk .left 1, .eof .left, .chunk .right 1, .eof .right] }
+    clearDeadlineOk := true, dialErr := none, targetStream := [9],
+    sched := [.chunk .right 1, .chunk .left 1, .eof .left, .eof .right] }
 
-example : ∃ (e : Env) (r : Req) (c : Code), e.req = some r ∧ e.routeErr = some c :=
-  ⟨{ sampleEnv with routeErr := some 13 }, ⟨"a:1", [], ""⟩, 13, rfl, rfl⟩
+/-! ### wait_decision -/
+
+/-- The brief wait for the initial payload happens iff the request carried no payload, the routed client can carry one,
+the server protocol cannot, and the listener did not disable it — exactly the condition of the source
+(`len(req.Payload) == 0 && clientInfo.NativeInitialPayload && lnc.waitForInitialPayload`, with
+`waitForInitialPayload = !serverNativeInitialPayload && !lnc.DisableInitialPayloadWait`). -/
+theorem wait_decision (e : Env) (r : Req) (hr : e.req = some r) (hroute : e.routeErr = none)
+    (hp : e.proceedOk = true) (hs : e.setDeadlineOk = true) :
+    (∃ n, Action.waitRead n ∈ handleConn e) ↔
+      (r.payload = [] ∧ e.clientNative = true ∧ e.serverNative = false ∧ e.waitDisabled = false) := by
+  rw [← waits_iff, handleConn_cases e r hr hroute]
+  cases hw : waits e r
+  · simp only [Bool.false_eq_true, if_false, iff_false, not_exists]
+    intro n
+    simp only [fromDial]
+    repeat' split
+    all_goals simp
+  · simp only [if_true, iff_true]
+    exact ⟨e.bufSize, by simp [afterWait, hp, hs]⟩
+
+example : (∃ n, Action.waitRead n ∈ handleConn sampleEnv) := ⟨8, by decide⟩
+
+/-- Order of the key calls: when the relay waits, success is signalled (Proceed) BEFORE anything else and the read uses the
+configured buffer; when it does not, DialStream with the request's own payload comes first. -/
+theorem wait_decision_order (e : Env) (r : Req) (hr : e.req = some r) (hroute : e.routeErr = none) :
+    (waits e r = true → ∃ t, handleConn e = .handshake :: .routed :: .proceed :: t) ∧
+    (waits e r = false → ∃ t, handleConn e = .handshake :: .routed :: .dial r.addr r.payload :: t) := by
+  rw [handleConn_cases e r hr hroute]
+  constructor
+  · intro hw; simp [hw, afterWait]
+  · intro hw; simp [hw, fromDial]
+
+/-! ### payload_once -/
+
+/-- DialStream is called at most once, with exactly the requested address, and with exactly the request's payload or
+exactly the bytes the wait read returned — never both (the wait only happens when the request's payload is empty). -/
+theorem payload_once (e : Env) (r : Req) (hr : e.req = some r) (hroute : e.routeErr = none)
+    (a : String) (p : Bytes) (h : Action.dial a p ∈ handleConn e) :
+    a = r.addr ∧
+    p = (if waits e r then e.clientStream.take (waitBytes e) else r.payload) ∧
+    (waits e r = true → r.payload = []) ∧
+    dialCount (handleConn e) = 1 := by
+  refine ⟨?_, ?_, fun hw => ((waits_iff e r).1 hw).1, ?_⟩
+  all_goals
+    rw [handleConn_cases e r hr hroute] at *
+    cases hw : waits e r
+  · simp only [hw, Bool.false_eq_true, if_false, fromDial] at h
+    revert h; (repeat' split) <;> simp_all
+  · simp only [hw, if_true, afterWait, fromDial] at h
+    revert h; (repeat' split) <;> simp_all
+  · simp only [hw, Bool.false_eq_true, if_false, fromDial] at h ⊢
+    revert h; (repeat' split) <;> simp_all
+  · simp only [hw, if_true, afterWait, fromDial] at h ⊢
+    revert h; (repeat' split) <;> simp_all
+  · simp [dialCount, dialCount_fromDial]
+  · simp only [hw, if_true, afterWait] at h ⊢
+    revert h
+    (repeat' split) <;> simp [dialCount, dialCount_fromDial]
+
+example : Action.dial "a:1" [1, 2] ∈ handleConn sampleEnv := by decide
+
+/-- For EVERY interleaving of the copy loops and every wait-read outcome, what the remote side has received (DialStream's
+payload followed by what the copy wrote) is a prefix of `request payload ++ client stream`: nothing is repeated, nothing is
+skipped, the bytes handed to DialStream are not read again by the copy. -/
+theorem payload_once_delivered_prefix (e : Env) (r : Req) (hr : e.req = some r) (hroute : e.routeErr = none)
+    (hd : e.dialErr = none) :
+    ∃ rest, targetReceived (handleConn e) ++ rest = r.payload ++ e.clientStream := by
+  rw [handleConn_cases e r hr hroute]
+  cases hw : waits e r
+  · simp only [Bool.false_eq_true, if_false, targetReceived, targetReceived_fromDial e r false r.payload 0 hd]
+    have inv := copyRun_inv e 0
+    split
+    · exact ⟨e.clientStream, by simp⟩
+    · exact ⟨(copyRun e 0).todoL, by rw [List.append_assoc, inv.strL]; simp⟩
+  · have hpay : r.payload = [] := ((waits_iff e r).1 hw).1
+    simp only [if_true, hpay, List.nil_append]
+    have inv := copyRun_inv e (waitBytes e)
+    by_cases hok : e.proceedOk = true ∧ e.setDeadlineOk = true ∧ e.waitKind ≠ .error ∧ e.clearDeadlineOk = true
+    · obtain ⟨h1, h2, h3, h4⟩ := hok
+      rw [afterWait_ok e r h1 h2 h3 h4]
+      simp only [targetReceived, targetReceived_fromDial e r true _ _ hd]
+      exact ⟨(copyRun e (waitBytes e)).todoL, by
+        simp only [Bool.not_true, Bool.false_and, Bool.false_eq_true, if_false, List.append_assoc, inv.strL,
+          List.take_append_drop]⟩
+    · refine ⟨e.clientStream, ?_⟩
+      simp only [afterWait]
+      (repeat' split) <;> simp_all [targetReceived]
+
+/-- … and once the client's end-of-stream has been passed on (CloseWrite on the remote side) without a copy error, the
+remote side has received exactly `request payload ++ client stream`, whatever the interleaving and the wait-read outcome. -/
+theorem payload_once_delivered (e : Env) (r : Req) (hr : e.req = some r) (hroute : e.routeErr = none)
+    (hd : e.dialErr = none) (hnf : ∀ l ∈ e.sched, l ≠ .fail .left)
+    (hcw : Action.closeWrite .right ∈ handleConn e) :
+    targetReceived (handleConn e) = r.payload ++ e.clientStream := by
+  have key : ∀ k, (copyRun e k).cwR = true → (copyRun e k).rxR = e.clientStream.drop k := by
+    intro k hk
+    have inv := copyRun_inv e k
+    have hdone : (copyRun e k).doneL = true := by rw [← inv.cwR]; exact hk
+    have hfail : (copyRun e k).failL = false := failL_run e.sched _ hnf rfl
+    have := inv.strL
+    rw [inv.eofL hdone hfail, List.append_nil] at this
+    exact this
+  rw [handleConn_cases e r hr hroute] at hcw ⊢
+  cases hw : waits e r
+  · simp only [hw, Bool.false_eq_true, if_false] at hcw
+    simp only [Bool.false_eq_true, if_false, targetReceived, targetReceived_fromDial e r false r.payload 0 hd]
+    have hc : (copyRun e 0).cwR = true ∧ e.proceedOk = true := by
+      simp only [fromDial, hd] at hcw
+      revert hcw; (repeat' split) <;> simp_all
+    simp [hc.2, key 0 hc.1]
+  · have hpay : r.payload = [] := ((waits_iff e r).1 hw).1
+    simp only [hw, if_true, afterWait] at hcw
+    simp only [if_true, afterWait, hpay, List.nil_append]
+    have hc : (copyRun e (waitBytes e)).cwR = true ∧ e.proceedOk = true ∧ e.setDeadlineOk = true ∧
+        e.waitKind ≠ .error ∧ e.clearDeadlineOk = true := by
+      simp only [fromDial, hd] at hcw
+      revert hcw; (repeat' split) <;> simp_all
+    obtain ⟨h1, h2, h3, h4, h5⟩ := hc
+    simp [h2, h3, h4, h5, targetReceived, targetReceived_fromDial e r true _ _ hd, key _ h1]
+
+example : Action.closeWrite .right ∈ handleConn sampleEnv ∧ targetReceived (handleConn sampleEnv) = [1, 2, 3] := by decide
+
+/-! ### failure_reply -/
+
+/-- A router failure is answered with Abort(code of the router error); nothing is dialed, nothing is proceeded. -/
+theorem failure_reply_route (e : Env) (r : Req) (c : Code) (hr : e.req = some r) (h : e.routeErr = some c) :
+    handleConn e = [.handshake, .abort c, .closeClient] := handleConn_routeErr e r c hr h
+
+/-- A failed DialStream is answered with Abort(code of the dial error) iff the pending connection was not yet proceeded;
+no other code is ever used. -/
+theorem failure_reply (e : Env) (r : Req) (c : Code) (hr : e.req = some r) (hroute : e.routeErr = none)
+    (hd : e.dialErr = some c) :
+    (Action.abort c ∈ handleConn e ↔ Action.proceed ∉ handleConn e) ∧
+    (∀ c', Action.abort c' ∈ handleConn e → c' = c) ∧
+    (Action.proceed ∈ handleConn e ↔ waits e r = true) := by
+  rw [handleConn_cases e r hr hroute]
+  cases hw : waits e r
+  · simp [fromDial, hd]
+  · simp only [if_true, afterWait, fromDial, hd]
+    refine ⟨?_, ?_, ?_⟩
+    · (repeat' split) <;> simp
+    · intro c'; (repeat' split) <;> simp
+    · (repeat' split) <;> simp
+
+example : ∃ (e : Env) (r : Req) (c : Code), e.req = some r ∧ e.routeErr = none ∧ e.dialErr = some c ∧ Action.abort c ∈ handleConn e :=
+  ⟨{ sampleEnv with clientNative := false, dialErr := some 111 }, ⟨"a:1", [], "u"⟩, 111, rfl, rfl, rfl, by decide⟩
+
+/-- In no environment at all does one connection see both an Abort and a Proceed (no failure reply after the success
+reply, no success reply after a failure reply), and an Abort always carries the code of the failure that happened. -/
+theorem never_abort_and_proceed (e : Env) (c : Code) (h : Action.abort c ∈ handleConn e) :
+    Action.proceed ∉ handleConn e ∧ (e.routeErr = some c ∨ (e.routeErr = none ∧ e.dialErr = some c)) := by
+  cases hr : e.req with
+  | none => simp [handleConn, hr] at h
+  | some r =>
+    cases hroute : e.routeErr with
+    | some c' =>
+      rw [handleConn_routeErr e r c' hr hroute] at h ⊢
+      simp at h; simp [h]
+    | none =>
+      rw [handleConn_cases e r hr hroute] at h ⊢
+      cases hw : waits e r
+      · simp only [hw, Bool.false_eq_true, if_false, fromDial] at h ⊢
+        revert h; (repeat' split) <;> simp_all
+      · simp only [hw, if_true, afterWait, fromDial] at h ⊢
+        revert h; (repeat' split) <;> simp_all
+
+/-! ### half_close -/
+
+/-- The two copy loops, for every pair of streams and EVERY interleaving `sched`:
+(1) CloseWrite has been issued on one side exactly when the loop reading from the other side has ended;
+(2) when that loop ended by end-of-stream, everything its source sent had been written before (EOF is not passed on early,
+    nothing is lost in front of it);
+(3) a step of one loop changes nothing the opposite loop owns, and whatever the opposite loop could do it still can do
+    (the opposite direction keeps flowing);
+(4) a loop that has not ended can always take a step (no stuck state of the copy logic itself). -/
+theorem half_close (a b : Bytes) (sched : List Label) (s : Side) :
+    let c := runSched (CopySt.init a b) sched
+    c.cw (otherSide s) = c.done s ∧
+    (c.done s = true → c.failed s = false → c.rx (otherSide s) = (match s with | .left => a | .right => b)) ∧
+    (∀ l l', l.side = s → l'.side = otherSide s →
+      loopView (stepCopy c l) (otherSide s) = loopView c (otherSide s) ∧ enabled (stepCopy c l) l' = enabled c l') ∧
+    (c.done s = false → enabled c (.eof s) = true ∨ enabled c (.chunk s (c.todo s).length) = true) := by
+  intro c
+  have inv : CopyInv a b c := copyInv_run sched (copyInv_init a b)
+  refine ⟨?_, ?_, ?_, ?_⟩
+  · cases s
+    · exact inv.cwR
+    · exact inv.cwL
+  · intro hdone hfail
+    cases s
+    · have := inv.strL; rw [inv.eofL hdone hfail, List.append_nil] at this; exact this
+    · have := inv.strR; rw [inv.eofR hdone hfail, List.append_nil] at this; exact this
+  · intro l l' hl hl'
+    subst hl
+    exact ⟨step_frame c l, opposite_keeps_running c l l' hl'⟩
+  · intro hnd
+    cases s
+    · simp only [CopySt.done] at hnd
+      cases ht : c.todoL with
+      | nil => left; simp [enabled, CopySt.done, CopySt.todo, hnd, ht]
+      | cons x xs => right; simp [enabled, CopySt.done, CopySt.todo, hnd, ht, Nat.blt, Nat.ble_eq]
+    · simp only [CopySt.done] at hnd
+      cases ht : c.todoR with
+      | nil => left; simp [enabled, CopySt.done, CopySt.todo, hnd, ht]
+      | cons x xs => right; simp [enabled, CopySt.done, CopySt.todo, hnd, ht, Nat.blt, Nat.ble_eq]
+
+/-- End-of-stream from one side becomes a write shutdown of the other side: when the loop reading from `s` sees EOF, the
+step issues CloseWrite on the opposite side, ends only that loop, and does so without an error. -/
+theorem half_close_eof (a b : Bytes) (sched : List Label) (s : Side)
+    (h : enabled (runSched (CopySt.init a b) sched) (.eof s) = true) :
+    let c' := stepCopy (runSched (CopySt.init a b) sched) (.eof s)
+    c'.cw (otherSide s) = true ∧ c'.done s = true ∧ c'.failed s = false ∧
+    loopView c' (otherSide s) = loopView (runSched (CopySt.init a b) sched) (otherSide s) := by
+  intro c'
+  obtain ⟨h1, h2, h3⟩ := eof_becomes_closeWrite _ s h
+  exact ⟨h1, h2, h3, step_frame _ (.eof s)⟩
+
+example : enabled (runSched (CopySt.init [1] [2, 3]) [.chunk .left 1]) (.eof .left) = true := by decide
+
+/-- The handler reports a CloseWrite towards the remote side exactly when the copy ran and the client-side loop ended, and
+towards the client exactly when the remote-side loop ended (EOF order is mirrored, per direction). -/
+theorem half_close_in_handler (e : Env) (r : Req) (hr : e.req = some r) (hroute : e.routeErr = none)
+    (hw : waits e r = false) (hd : e.dialErr = none) (hp : e.proceedOk = true) :
+    (Action.closeWrite .right ∈ handleConn e ↔ (copyRun e 0).doneL = true) ∧
+    (Action.closeWrite .left ∈ handleConn e ↔ (copyRun e 0).doneR = true) := by
+  have inv := copyRun_inv e 0
+  rw [handleConn_cases e r hr hroute]
+  simp only [hw, Bool.false_eq_true, if_false, fromDial, hd, hp]
+  rw [← inv.cwR, ← inv.cwL]
+  constructor <;> (repeat' split) <;> simp_all
+
+/-! ### stats_exact -/
+
+/-- The figures handed to the statistics collector: the user of the request, downlink = bytes written to the client,
+uplink = bytes handed to the remote side (DialStream's payload, counted once, plus what the copy wrote). For every
+interleaving and every wait-read outcome. -/
+theorem stats_exact (e : Env) (r : Req) (hr : e.req = some r) (hroute : e.routeErr = none)
+    (u : String) (d up : Nat) (h : Action.collect u d up ∈ handleConn e) :
+    u = r.user ∧ up = (targetReceived (handleConn e)).length ∧ d = (clientReceived (handleConn e)).length := by
+  rw [handleConn_cases e r hr hroute] at h ⊢
+  cases hw : waits e r
+  · have inv := copyRun_inv e 0
+    simp only [hw, Bool.false_eq_true, if_false, List.mem_cons, reduceCtorEq, false_or] at h
+    obtain ⟨hd, hp, hu, hdn, hup⟩ := collect_mem_fromDial e r false r.payload 0 u d up h
+    simp only [Bool.false_eq_true, if_false, targetReceived, clientReceived,
+      targetReceived_fromDial e r false r.payload 0 hd, clientReceived_fromDial e r false r.payload 0 hd, hp]
+    refine ⟨hu, ?_, ?_⟩
+    · rw [hup, inv.cntL, List.length_append]; omega
+    · rw [hdn, inv.cntR]
+  · have inv := copyRun_inv e (waitBytes e)
+    simp only [hw, if_true, List.mem_cons, reduceCtorEq, false_or] at h
+    obtain ⟨h1, h2, h3, h4, hm⟩ := collect_mem_afterWait e r u d up h
+    obtain ⟨hd, hp, hu, hdn, hup⟩ := collect_mem_fromDial e r true _ _ u d up hm
+    simp only [if_true, afterWait_ok e r h1 h2 h3 h4, targetReceived, clientReceived,
+      targetReceived_fromDial e r true _ _ hd, clientReceived_fromDial e r true _ _ hd, hp]
+    refine ⟨hu, ?_, ?_⟩
+    · rw [hup, inv.cntL, List.length_append]; simp; omega
+    · rw [hdn, inv.cntR]; simp
+
+example : Action.collect "u" 1 3 ∈ handleConn sampleEnv := by decide
 
 end SSV.C13
 
-#print axioms SSV.C13.route_error_reply
+#print axioms SSV.C13.wait_decision
+#print axioms SSV.C13.wait_decision_order
+#print axioms SSV.C13.payload_once
+#print axioms SSV.C13.payload_once_delivered_prefix
+#print axioms SSV.C13.payload_once_delivered
+#print axioms SSV.C13.failure_reply_route
+#print axioms SSV.C13.failure_reply
+#print axioms SSV.C13.never_abort_and_proceed
+#print axioms SSV.C13.half_close
+#print axioms SSV.C13.half_close_eof
+#print axioms SSV.C13.half_close_in_handler
+#print axioms SSV.C13.stats_exact
